@@ -64,6 +64,11 @@ func (ms *mapStruct) ptr(offset int64, l int32) ([]byte, error) {
 	}
 	if windowSize < len+alignFudge {
 		windowSize = alignedLength(len + alignFudge)
+		// rounding up must not move the window end past the end of the
+		// file: reading there would fail with io.EOF
+		if rest := ms.fileSize - windowStart; windowSize > rest && rest >= len+alignFudge {
+			windowSize = rest
+		}
 	}
 	if windowSize > ms.pSize {
 		win := make([]byte, windowSize)
